@@ -30,6 +30,7 @@ def battery():
     out.append(sqlparse.format(REF, output_format='python'))
     out.append(sqlparse.format(REF, output_format='php', reindent_aligned=True))
     out.append(sqlparse.format('select 1 -- c\n', strip_comments=True, identifier_case='upper'))
+    out.append(shape('select foo, zz9 from bar where xselect = 1'))
     return digest(out)
 
 
@@ -88,6 +89,9 @@ def do_op(op, keep):
         lx.clear()
         lx.set_SQL_REGEX([(r'\w+', tokens.Name), (r'\s+', tokens.Whitespace)])
         lx.add_keywords({'FOO': tokens.Keyword})
+    elif op == 'add_keywords':
+        # additional dictionary on top of the current configuration (no clear() first)
+        lexer.Lexer.get_default_instance().add_keywords({'ZZ9': tokens.Keyword, 'FOO': tokens.Keyword.DML, 'BAR': tokens.Keyword})
     elif op == 'clear':
         lexer.Lexer.get_default_instance().clear()
     elif op == 'default_init':
